@@ -485,3 +485,72 @@ def recognise2(rg, inp, start='start'):
                     old |= acc
                     changed = True
     return any(inp.final_ok(j) for j in E.get((start, 0), ()))
+
+
+# ------------------------------------------------------------------ R2d viable prefixes / next terminals
+
+class Viable:
+    """Which prefixes of the input can be extended to a sentence, and which terminals may come
+    next.  Top-down closure over the chart: Need(X, i) = "some sentence has the consumed input up
+    to i followed by an X"; only productions whose symbols are all productive take part (a prefix
+    that needs a useless symbol cannot be completed).  Positions are those of the input model
+    (token indexes, or character offsets of token ends for CharInput)."""
+
+    def __init__(self, rg, inp, chart, start='start', productive_only=True):
+        self.rg, self.inp, self.chart, self.start = rg, inp, chart, start
+        prod = rg.productive() if productive_only else set(rg.nts)
+        self.exp = {}            # position -> set of tids expected there
+        self.reached = set()     # positions at which some viable item's dot sits
+        need = {(start, 0)}
+        work = [(start, 0)]
+        while work:
+            X, i = work.pop()
+            for p in rg.nts[X].prods:
+                if any(s[0] == 'N' and s[1] not in prod for s in p.rhs):
+                    continue
+                pos = {i}
+                for s in p.rhs:
+                    self.reached |= pos
+                    npos = set()
+                    if s[0] == 'N':
+                        sp = chart.span[s[1]]
+                        for q in pos:
+                            if (s[1], q) not in need:
+                                need.add((s[1], q))
+                                work.append((s[1], q))
+                            npos |= sp[q]
+                    else:
+                        for q in pos:
+                            self.exp.setdefault(q, set()).add(s[1])
+                            for (_, j) in inp.tmatch(s[1], q):
+                                npos.add(j)
+                    pos = npos
+                    if not pos:
+                        break
+                self.reached |= pos
+        if start not in prod:
+            self.reached = {0}
+            self.exp = {}
+        self.complete = set(chart.span[start][0]) if start in prod else set()
+
+    # -- token level
+    def longest_viable(self):
+        return max(self.reached) if self.reached else 0
+
+    def next_terms(self, k):
+        return set(self.exp.get(k, ()))
+
+    # -- scannerless (CharInput): character offsets that stay alive through ignored text
+    def live_chars(self):
+        live = set(self.reached)
+        for q in self.reached:
+            if self.exp.get(q) or q in self.complete:
+                live |= self.inp.skip[q]
+        return live
+
+    def allowed_at(self, m):
+        out = set()
+        for q in self.reached:
+            if m in self.inp.skip[q]:
+                out |= self.exp.get(q, set())
+        return out
